@@ -668,6 +668,416 @@ func c30strings(r *vk.Run, out map[string]int64) {
 	}
 }
 
+// ---- part C: integer-representation boundaries ---------------------------------------------
+//
+// Every integer the encoder writes (RFC 7541 5.1: string lengths with a 7-bit prefix, indices
+// with 7/6/4-bit prefixes, table size updates with a 5-bit prefix) is swept across the group
+// boundaries prefixMax, prefixMax+128, prefixMax+16384:
+//   C1  appendVarInt -> readVarInt directly, every prefix size 1..8, every value 0..70000 and the
+//       boundaries of the later groups, with and without following octets;
+//   C2  sequences of header blocks on one encoder/decoder pair whose name/value grows by one
+//       octet of *encoded* length per block (raw, raw never-indexed, Huffman, as new name, with a
+//       table large enough to index them), encoded lengths 0..300 and 16350..16700;
+//   C3  announcements of every table size 0..4096 and 16350..16700, alone and followed by a
+//       larger one (two updates in one block);
+//   C4  a table of several hundred entries, every entry referenced by an indexed field, by a
+//       never-indexed literal with indexed name and by an incremental literal with indexed name
+//       (indices up to > 61+255+128; thorough: around 16384 as well).
+// In these sequences nothing but announcements and writes happen, so both dynamic tables must
+// stay in step (same maximum, same entries): a difference means the block was mis-framed.
+
+// c30refInt is RFC 7541 5.1 "encode I on N bits" written from the pseudo-code (reference only
+// for choosing/recording; the judged oracle is the round trip through the real decoder).
+func c30refInt(n uint, i uint64) []byte {
+	k := uint64(1)<<n - 1
+	if i < k {
+		return []byte{byte(i)}
+	}
+	out := []byte{byte(k)}
+	i -= k
+	for i >= 128 {
+		out = append(out, byte(i%128+128))
+		i /= 128
+	}
+	return append(out, byte(i))
+}
+
+func c30varints(r *vk.Run, out map[string]int64, n uint) {
+	k := uint64(1)<<n - 1
+	var vals []uint64
+	for v := uint64(0); v <= 70000; v++ {
+		vals = append(vals, v)
+	}
+	for _, g := range []uint64{1 << 14, 1 << 21, 1 << 28, 1 << 32, 1 << 35} {
+		for _, d := range []int64{-2, -1, 0, 1, 2, 127, 128, 129} {
+			vals = append(vals, k+g+uint64(d), g+uint64(d))
+		}
+	}
+	vals = append(vals, 1<<32-1, 1<<32)
+	tails := [][]byte{nil, {0x00}, {0xff}, {0x80, 0x01}, {0x7f, 0x7f, 0x7f}}
+	for _, v := range vals {
+		id := fmt.Sprintf("varint|%d|%d", n, v)
+		if !r.Case(id) {
+			continue
+		}
+		panicked, pv := vk.Guard(func() {
+			enc := appendVarInt(nil, byte(n), v)
+			cls := "one-extra-octet"
+			switch {
+			case v < k:
+				cls = "in-prefix"
+			case v-k >= 1<<14:
+				cls = "three-or-more-extra-octets"
+			case v-k >= 128:
+				cls = "two-extra-octets"
+			}
+			out["varint:"+cls]++
+			if !bytes.Equal(enc, c30refInt(n, v)) {
+				out["varint:not-the-rfc-octets"]++ // recorded, judged through the round trip below
+			}
+			for _, tail := range tails {
+				buf := append(append([]byte(nil), enc...), tail...)
+				if n < 8 {
+					buf[0] |= byte(0xff) << n // representation bits above the prefix must be ignored
+				}
+				got, rest, err := readVarInt(byte(n), buf)
+				if err != nil || got != v || !bytes.Equal(rest, tail) {
+					r.Violation(fmt.Sprintf("roundtrip:integer:%s:prefix-%d", cls, n), id, fmt.Sprintf("appendVarInt(n=%d, %d) = %x; readVarInt over it followed by %x returns value %d, %d octets left, err %v", n, v, enc, tail, got, len(rest), err))
+					return
+				}
+			}
+			for cut := 1; cut < len(enc); cut++ { // a proper prefix must ask for more
+				if _, _, err := readVarInt(byte(n), enc[:cut]); err != errNeedMore {
+					r.Violation(fmt.Sprintf("roundtrip:integer-truncated:%s:prefix-%d", cls, n), id, fmt.Sprintf("appendVarInt(n=%d, %d) = %x; readVarInt over the first %d octets: err %v, want need-more", n, v, enc, cut, err))
+					return
+				}
+			}
+			r.Traces(int64(len(tails)))
+		})
+		if panicked {
+			r.Violation("roundtrip:panic:"+vk.PanicSite(pv), id, pv)
+		}
+	}
+}
+
+// c30pair is one encoder/decoder pair driven block by block.
+type c30pair struct {
+	enc      *Encoder
+	out      bytes.Buffer
+	dec      *Decoder
+	A        uint32 // announced size
+	limit    uint32 // encoder's own limit (0: default)
+	announce uint32
+	// coverage
+	minIdx, maxIdx map[string]uint64
+}
+
+func c30newPair(limit, announce uint32) *c30pair {
+	p := &c30pair{limit: limit, announce: announce}
+	p.reset()
+	return p
+}
+
+func (p *c30pair) reset() {
+	p.out.Reset()
+	p.enc = NewEncoder(&p.out)
+	p.dec = NewDecoder(c30init, nil)
+	p.A = c30init
+	if p.limit != 0 {
+		p.enc.SetMaxDynamicTableSizeLimit(p.limit)
+	}
+	if p.announce != 0 {
+		p.setMax(p.announce)
+	}
+}
+
+// setMax: the decoding side announces v and the encoder is told.
+func (p *c30pair) setMax(v uint32) {
+	p.dec.SetAllowedMaxDynamicTableSize(v)
+	p.enc.SetMaxDynamicTableSize(v)
+	p.A = v
+}
+
+func c30fieldShort(f HeaderField) string {
+	sh := func(s string) string {
+		if len(s) > 12 {
+			return fmt.Sprintf("%q..(%d octets)", s[:6], len(s))
+		}
+		return fmt.Sprintf("%q", s)
+	}
+	s := ""
+	if f.Sensitive {
+		s = ",sensitive"
+	}
+	return sh(f.Name) + "=" + sh(f.Value) + s
+}
+
+// block writes the fields as one header block, decodes it (whole; split at every offset and
+// bytewise when allSplits, else split inside the first 8 octets, in the middle and before the
+// last octet) and judges it. sig=="" : fine.
+func (p *c30pair) block(fields []HeaderField, allSplits bool) (sig, detail, class string) {
+	panicked, pv := vk.Guard(func() { sig, detail, class = p.block1(fields, allSplits) })
+	if panicked {
+		return "roundtrip:panic:" + vk.PanicSite(pv), pv, class
+	}
+	return
+}
+
+func (p *c30pair) block1(fields []HeaderField, allSplits bool) (sig, detail, class string) {
+	var block, first []byte
+	var desc []string
+	for i, f := range fields {
+		p.out.Reset()
+		if err := p.enc.WriteField(f); err != nil {
+			return "roundtrip:encoder-error", err.Error(), ""
+		}
+		if i == 0 {
+			first = append([]byte(nil), p.out.Bytes()...)
+		}
+		block = append(block, p.out.Bytes()...)
+		desc = append(desc, c30fieldShort(f))
+	}
+	updates, class, _, _ := c30classify(first)
+	head := block
+	if len(head) > 24 {
+		head = head[:24]
+	}
+	ctx := fmt.Sprintf("block [%s] = %d octets starting %x (size updates %d, %s)", strings.Join(desc, ", "), len(block), head, updates, class)
+	snap := c30snapOf(p.dec)
+	got, err := c30feed(p.dec, [][]byte{block})
+	if err != nil {
+		return "roundtrip:decode-error:" + class + ":whole", fmt.Sprintf("%s: %v after %d fields", ctx, err, len(got)), class
+	}
+	if kind, at := c30compare(fields, got); kind != "" {
+		return "roundtrip:" + kind + ":" + class + ":whole", fmt.Sprintf("%s: field %d decoded as %s", ctx, at, c30fieldShort(append(got, HeaderField{})[at])), class
+	}
+	e, d := &p.enc.dynTab, &p.dec.dynTab
+	es, ds := c30sum(e.ents), c30sum(d.ents)
+	switch {
+	case es > uint64(e.maxSize):
+		return "enc-table:entries-exceed-max:after-field", fmt.Sprintf("%s: encoder table %d octets > its maximum %d", ctx, es, e.maxSize), class
+	case e.maxSize > p.A:
+		return "enc-table:max-exceeds-announced:after-field", fmt.Sprintf("%s: encoder maximum %d > announced %d", ctx, e.maxSize, p.A), class
+	case e.maxSize > p.enc.maxSizeLimit:
+		return "enc-table:max-exceeds-own-limit:after-field", fmt.Sprintf("%s: encoder maximum %d > own limit %d", ctx, e.maxSize, p.enc.maxSizeLimit), class
+	case ds > uint64(d.maxSize):
+		return "dec-table:entries-exceed-max", fmt.Sprintf("%s: decoder table %d octets > its maximum %d", ctx, ds, d.maxSize), class
+	case d.maxSize > p.A:
+		return "dec-table:max-exceeds-announced", fmt.Sprintf("%s: decoder maximum %d > announced %d", ctx, d.maxSize, p.A), class
+	case e.maxSize != d.maxSize || !c30sameEnts(e.ents, d.ents):
+		return "tables-out-of-step:announcements-and-writes-only:" + class, fmt.Sprintf("%s: encoder table max %d, %d entries, %d octets; decoder table max %d, %d entries, %d octets", ctx, e.maxSize, len(e.ents), es, d.maxSize, len(d.ents), ds), class
+	}
+	try := func(name string, pieces [][]byte) bool {
+		d2 := c30cloneDec(snap)
+		got2, err2 := c30feed(d2, pieces)
+		cls := "split"
+		if name == "bytewise" {
+			cls = name
+		}
+		switch {
+		case err2 != nil:
+			sig, detail = "roundtrip:decode-error:"+class+":"+cls, fmt.Sprintf("%s delivered %s: %v", ctx, name, err2)
+		default:
+			if kind, at := c30compare(fields, got2); kind != "" {
+				sig, detail = "roundtrip:"+kind+":"+class+":"+cls, fmt.Sprintf("%s delivered %s: field %d differs", ctx, name, at)
+			} else if !c30sameDec(d2, p.dec) {
+				sig, detail = "roundtrip:decoder-state-depends-on-delivery:"+class+":"+cls, fmt.Sprintf("%s delivered %s", ctx, name)
+			}
+		}
+		return sig == ""
+	}
+	if allSplits {
+		c30splits(block, try)
+	} else {
+		cuts := []int{1, 2, 3, 4, 5, 6, 7, 8, len(block) / 2, len(block) - 1}
+		prev := 0
+		for _, k := range cuts {
+			if k <= prev || k >= len(block) {
+				continue
+			}
+			prev = k
+			if !try(fmt.Sprintf("split@%d", k), [][]byte{block[:k], block[k:]}) {
+				break
+			}
+		}
+	}
+	return sig, detail, class
+}
+
+// c30seq drives one family: a deterministic sequence of steps on one pair. Every step is
+// executed (the state evolves); it is judged when r.Case says so (always, except in replay).
+type c30seq struct {
+	r    *vk.Run
+	out  map[string]int64
+	fam  string
+	p    *c30pair
+	step int
+}
+
+func (q *c30seq) do(what string, fields []HeaderField, allSplits bool) {
+	id := fmt.Sprintf("seq|%s|%d", q.fam, q.step)
+	q.step++
+	sig, detail, class := q.p.block(fields, allSplits)
+	judged := q.r.Case(id)
+	if judged {
+		q.out["repr:"+class]++
+		q.r.Traces(1)
+	}
+	if sig != "" {
+		if judged {
+			q.r.Violation(sig, id, q.fam+" "+what+" :: "+detail)
+		}
+		q.p.reset() // the pair is out of step now: continue the sweep on a fresh one
+	}
+}
+
+func c30rawString(n int) string { // octets with 8-bit Huffman codes: the raw form is chosen
+	const pat = "X;Z&*,"
+	return strings.Repeat(pat, n/len(pat)+1)[:n]
+}
+
+// c30lengths: the encoded string lengths to sweep.
+func c30lengths(big bool) []int {
+	var ls []int
+	if !big {
+		for l := 0; l <= 300; l++ {
+			ls = append(ls, l)
+		}
+		return ls
+	}
+	for l := 16350; l <= 16700; l++ {
+		ls = append(ls, l)
+	}
+	return ls
+}
+
+func c30boundaries(r *vk.Run, out map[string]int64) {
+	item := 5 // offset the family -> shard dealing a little
+	mine := func() bool { item++; return r.Mine(item) || r.Replaying() }
+
+	// C1
+	for n := uint(1); n <= 8; n++ {
+		if mine() {
+			c30varints(r, out, n)
+		}
+	}
+	// C2
+	marker := HeaderField{Name: ":path", Value: "/"} // a second field right behind the string
+	type form struct {
+		name            string
+		limit, announce uint32
+		mk              func(enc int) HeaderField
+	}
+	huff := func(enc int) string { return strings.Repeat("a", enc*8/5) } // 5-bit code: ceil(5*L/8) == enc
+	forms := []form{
+		{"value-raw", 0, 0, func(n int) HeaderField { return HeaderField{Name: "a", Value: c30rawString(n)} }},
+		{"value-raw-never-indexed", 0, 0, func(n int) HeaderField {
+			return HeaderField{Name: "set-cookie", Value: c30rawString(n), Sensitive: true}
+		}},
+		{"value-huffman", 0, 0, func(n int) HeaderField { return HeaderField{Name: "location", Value: huff(n)} }},
+		{"name-raw", 0, 0, func(n int) HeaderField { return HeaderField{Name: c30rawString(n), Value: "v"} }},
+		{"name-huffman", 0, 0, func(n int) HeaderField { return HeaderField{Name: huff(n), Value: ""} }},
+		{"value-raw-large-table", 1 << 17, 1 << 17, func(n int) HeaderField { return HeaderField{Name: "a", Value: c30rawString(n)} }},
+		{"value-huffman-large-table", 1 << 17, 1 << 17, func(n int) HeaderField { return HeaderField{Name: "b", Value: huff(n)} }},
+	}
+	for _, f := range forms {
+		for _, big := range []bool{false, true} {
+			if !mine() {
+				continue
+			}
+			fam := f.name + "-lengths-0..300"
+			if big {
+				fam = f.name + "-lengths-16350..16700"
+			}
+			q := &c30seq{r: r, out: out, fam: fam, p: c30newPair(f.limit, f.announce)}
+			for _, n := range c30lengths(big) {
+				hf := f.mk(n)
+				s := hf.Value
+				if strings.HasPrefix(f.name, "name") {
+					s = hf.Name
+				}
+				if s != "" {
+					if HuffmanEncodeLength(s) < uint64(len(s)) {
+						out["string-form:long:huffman"]++
+					} else {
+						out["string-form:long:raw"]++
+					}
+				}
+				q.do(fmt.Sprintf("encoded string length %d", n), []HeaderField{hf, marker}, !big)
+			}
+		}
+	}
+	// C3
+	for _, big := range []bool{false, true} {
+		if !mine() {
+			continue
+		}
+		fam := "announced-sizes-0..4096"
+		lo, hi := 0, 4096
+		if big {
+			fam, lo, hi = "announced-sizes-16350..16700", 16350, 16700
+		}
+		q := &c30seq{r: r, out: out, fam: fam, p: c30newPair(1<<17, 0)}
+		for v := lo; v <= hi; v++ {
+			q.p.setMax(uint32(v))
+			q.do(fmt.Sprintf("after announcing %d", v), []HeaderField{{Name: "a", Value: fmt.Sprint(v % 50)}, marker}, true)
+			q.p.setMax(uint32(v))
+			q.p.setMax(1 << 16)
+			q.do(fmt.Sprintf("after announcing %d then 65536", v), []HeaderField{{Name: "cookie", Value: fmt.Sprint(v % 40)}, marker}, true)
+		}
+	}
+	// C4
+	type idxFam struct {
+		name     string
+		table    uint32
+		n        int
+		from, to int // positions (1 = newest) to reference
+		thorough bool
+	}
+	for _, f := range []idxFam{
+		{"indices-62..520", 1 << 16, 460, 1, 460, false},
+		{"indices-16350..16700", 1 << 20, 16700, 16350 - 61, 16700 - 61, true},
+	} {
+		if !mine() || (f.thorough && !r.Thorough() && !r.Replaying()) {
+			continue
+		}
+		q := &c30seq{r: r, out: out, fam: f.name, p: c30newPair(f.table, f.table)}
+		fill := func() {
+			for i := 0; i < f.n; i += 20 { // filled in blocks of 20 new entries
+				var fs []HeaderField
+				for j := i; j < i+20 && j < f.n; j++ {
+					fs = append(fs, HeaderField{Name: fmt.Sprintf("n%05d", j), Value: ""})
+				}
+				q.do(fmt.Sprintf("fill %d..", i), fs, false)
+			}
+		}
+		fill()
+		nameAt := func(pos int) (string, bool) {
+			ents := q.p.enc.dynTab.ents
+			if pos > len(ents) {
+				return "", false
+			}
+			return ents[len(ents)-pos].Name, true
+		}
+		for pos := f.from; pos <= f.to; pos++ { // indexed field representation (7-bit prefix)
+			if n, ok := nameAt(pos); ok {
+				q.do(fmt.Sprintf("indexed field, entry %d", pos), []HeaderField{{Name: n, Value: ""}, marker}, true)
+			}
+		}
+		for pos := f.from; pos <= f.to; pos++ { // never indexed, indexed name (4-bit prefix)
+			if n, ok := nameAt(pos); ok {
+				q.do(fmt.Sprintf("never-indexed literal, name of entry %d", pos), []HeaderField{{Name: n, Value: "x", Sensitive: true}, marker}, true)
+			}
+		}
+		for pos := f.from; pos <= f.to; pos++ { // incremental indexing, indexed name (6-bit prefix); adds an entry
+			if n, ok := nameAt(pos); ok {
+				q.do(fmt.Sprintf("incremental literal, name of entry %d", pos), []HeaderField{{Name: n, Value: fmt.Sprintf("v%d", pos)}, marker}, true)
+			}
+		}
+	}
+	r.Set("boundaries_bounds", "C1: appendVarInt->readVarInt for prefix sizes 1..8, all values 0..70000 and +-2/127/128/129 around 2^14,2^21,2^28,2^32,2^35 (plain and prefixMax-relative), five tails, every truncation; C2: 7 string forms x encoded lengths 0..300 (all splits+bytewise) and 16350..16700 (whole + splits inside the first 8 octets, middle, last), each followed by a second field; C3: every announced size 0..4096 and 16350..16700, alone and followed by 65536; C4: 460-entry table, every entry referenced through 7/4/6-bit prefixes (indices 62..521); thorough: 16700-entry table, indices 16350..16700")
+}
+
 // ---- entry point -------------------------------------------------------------------------
 
 // c30explore runs part A for one configuration: phase 1 (every shard walks it, shard 0 reports
@@ -766,8 +1176,8 @@ func TestVerifC30(t *testing.T) {
 		ops   []c30op
 		depth int
 	}
-	// quick: base alphabet to depth 6; thorough: base alphabet to depth 7 and the wide alphabet to depth 5
-	cfgs := []cfg{{"base", c30alphabet(false), r.Pick(6, 7)}}
+	// quick: base alphabet to depth 5; thorough: base alphabet to depth 7 and the wide alphabet to depth 5
+	cfgs := []cfg{{"base", c30alphabet(false), r.Pick(5, 7)}}
 	if r.Thorough() || r.Replaying() {
 		cfgs = append(cfgs, cfg{"wide", c30alphabet(true), 5})
 	}
@@ -792,11 +1202,16 @@ func TestVerifC30(t *testing.T) {
 					x.run(vk.ParseInts(parts[2]))
 				}
 			}
-		} else {
+		} else if strings.HasPrefix(id, "str|") {
 			c30strings(r, out)
+		} else {
+			c30boundaries(r, out)
 		}
 		return
 	}
+
+	// Part C first: cheap, and it must not be cut by a deadline
+	c30boundaries(r, out)
 
 	for i, c := range cfgs {
 		if i == 1 {
